@@ -114,11 +114,30 @@ def run(repo, chk, tier):
     chk.rule("R2", "a write-back counts as a restore only if its value derives from a snapshot of the same cell taken while the cell was clean")
     chk.rule("R3", "no in-place mutation of a cell's list while an alias snapshot of it is live")
     chk.rule("R4", "a parameter snapshot taken with val_in_fit=A is restored with val_in_fit=A (signature defaults resolved)")
+    chk.rule("R6", "a parameter snapshot is not taken through a reader that applies the mask_vars override (nested temp_params inside mask_params must not write masked values into the variables)")
     chk.assume("state cells: chains_idx, VarsManager.variables values, mask_vars, mask_factor flags, tf_pwa.config entries; equality of all cells implies equal density")
     chk.assume("an exception raised by a writer call is raised before its effect (lenient model); a restoring call completes")
     chk.assume("receiver table of sa/resolve.py (vm, decay_group, amp, model, fcn ...) types non-self receivers")
 
     eff, analyses, scope = analyse_all(repo)
+    # functions whose result may come from the mask_vars override (fix-point over resolved calls)
+    mask_readers = set()
+    for g in repo.all_fns():
+        if any(isinstance(x, ast.Attribute) and x.attr == "mask_vars" and isinstance(x.ctx, ast.Load) for x in walk_stmt(g.node)):
+            mask_readers.add(g)
+    changed = True
+    while changed:
+        changed = False
+        for g in repo.all_fns():
+            if g in mask_readers:
+                continue
+            for n_, cands_, how_ in eff.calls.get(g, ()):
+                if how_ in ("byname", "class"):
+                    continue
+                if any(c in mask_readers for c in cands_) and any(isinstance(r, ast.Return) for r in walk_stmt(g.node)):
+                    mask_readers.add(g)
+                    changed = True
+                    break
 
     n_surface = 0
     for key, (cells, kind, reason) in sorted(SURFACE.items()):
@@ -163,6 +182,24 @@ def run(repo, chk, tier):
                 "in-place mutation `%s` while `%s` aliases the saved %s list" % (text, var, cell),
                 file=rel, line=getattr(astn, "lineno", None),
             )
+        # R6 a parameter snapshot must hold the real values, not the masked view
+        for scell, svar, stext, alias, sast in an.snapshots:
+            if scell != "params" or "params" not in cells:
+                continue
+            for n in walk_stmt(sast):
+                if isinstance(n, ast.Call):
+                    cands, how = eff.res.resolve_call(f, n)
+                    if how == "byname":
+                        continue
+                    masked = [g for g in cands if g in mask_readers and "params" in eff.readers.get(g, ())]
+                    if "params" in eff.call_reads(f, n):
+                        chk.instance("R6", "%s snapshot `%s` reads through the mask: %s" % (key, norm_text(n), bool(masked)))
+                    if masked:
+                        chk.violation(
+                            "R6", key, "masked-snapshot:%s" % svar,
+                            "the snapshot `%s` is taken through %s, which returns mask_vars overrides instead of the variables' own values: inside a mask_params block the restore writes the masked values into the real parameters" % (norm_text(n), masked[0].key),
+                            file=rel, line=getattr(sast, "lineno", None),
+                        )
         # R4 coordinate agreement
         for cell, var, text, astn in an.restores:
             if cell != "params" or not isinstance(astn, ast.Call):
@@ -217,12 +254,57 @@ def run(repo, chk, tier):
                     "same save/restore shape outside the armed surface: %s cells=%s exits=%s (not among the computations the statement enumerates)"
                     % (f.key, ",".join(cells), ",".join(sorted({e for _, e, _ in an.dirty_exits})))
                 )
+    derived_flag(repo, chk)
     chk.extra["surface_functions"] = n_surface
     chk.extra["functions_with_cfg"] = len(analyses)
     chk.extra["cfg_nodes_total"] = sum(len(a.cfg.nodes) for a in analyses.values())
     chk.require_count("R1", MIN_SURFACE_INSTANCES)
     # positive fixture: the analysis must flag the broken twin and accept the good twin
     _fixture(chk)
+
+
+def derived_flag(repo, chk):
+    """R5: `not_full` guards the cached (graph-compiled) density, which bakes in the chain selection it
+    was traced with.  A stale True only disables the cache (safe); a False while the selection is narrowed
+    makes amp(data) return the density of another chain set.  So `not_full = False` may be written only
+    where chains_idx is known to be the complete list."""
+    chk.rule("R5", "the derived flag not_full is set to False only in DecayGroup.__init__ (full list) and in set_used_chains on the branch where len(chains_idx) == len(chains); anywhere else only True may be stored")
+    n = 0
+    for rel, m in sorted(repo.mods.items()):
+        for f in m.funcs.values():
+            for st in walk_stmt(f.node):
+                if not isinstance(st, ast.Assign):
+                    continue
+                for t in st.targets:
+                    if isinstance(t, ast.Attribute) and t.attr == "not_full":
+                        n += 1
+                        val = norm_text(st.value)
+                        where = f.key
+                        ok = False
+                        if val == "True":
+                            ok = True
+                        elif where == "tf_pwa/amp/core.py::DecayGroup.__init__":
+                            ok = val == "False" and any(
+                                isinstance(x, ast.Assign) and norm_text(x.targets[0]) == "self.chains_idx" and norm_text(x.value) in ("list(range(len(chains)))", "list(range(len(self.chains)))")
+                                for x in walk_stmt(f.node)
+                            )
+                        elif where == "tf_pwa/amp/core.py::DecayGroup.set_used_chains":
+                            # must sit on the "equal length" side of the comparison
+                            for ifn in [x for x in walk_stmt(f.node) if isinstance(x, ast.If)]:
+                                tt = norm_text(ifn.test).replace(" ", "")
+                                ne = tt in ("len(self.chains_idx)!=len(self.chains)", "len(self.chains)!=len(self.chains_idx)")
+                                eq = tt in ("len(self.chains_idx)==len(self.chains)", "len(self.chains)==len(self.chains_idx)")
+                                if ne and st in ifn.orelse and val == "False":
+                                    ok = True
+                                if eq and st in ifn.body and val == "False":
+                                    ok = True
+                            if val.replace(" ", "") in ("len(self.chains_idx)!=len(self.chains)", "len(self.chains)!=len(self.chains_idx)"):
+                                ok = True
+                        chk.instance("R5", "%s: `%s` %s" % (where, norm_text(st), "ok" if ok else "NOT ALLOWED"))
+                        if not ok:
+                            chk.violation("R5", where, "not_full:%s" % val, "`%s` clears the not-full flag where the chain selection is not known to be complete: the cached (compiled) density is used with whatever chain set it was traced for" % norm_text(st), file=rel, line=st.lineno)
+    if n < 3:
+        raise AnalysisError("fewer than 3 writes of not_full found")
 
 
 def _fixture(chk):
